@@ -71,6 +71,11 @@ void DependencyInfoParser::parse() {
   while (cur != end) {
     const char* opcodeStart = cur;
     auto opcode = Opcode(*cur++);
+    if (cur == end) {
+      // The terminating null was consumed as an opcode: there is no operand.
+      actions.error("missing operand", opcodeStart - data.data());
+      break;
+    }
     const char* operandStart = cur;
     while (*cur != '\0') {
       ++cur;
